@@ -132,3 +132,16 @@ End Masked.
 Arguments mkExt {O}.
 Arguments pinf {O}. Arguments ninf {O}. Arguments tiny {O}. Arguments fillv {O}. Arguments cast32 {O}.
 Arguments atan_ {O}. Arguments acos_ {O}. Arguments interp {O}.
+
+(* ---- what the statement observes ------------------------------------------------------------------ *)
+Section Visible.
+Variable O : ops.
+(* visible part of a masked tensor: the missing pattern and the values with the missing ones zero-filled *)
+Definition visible (a : marr O) : marr O := tmap (vis1 O) a.
+(* two masked tensors that differ only in what is stored at missing slots *)
+Definition agree (a a' : marr O) : Prop := visible a = visible a'.
+Definition agree_l (l l' : list (cell O)) : Prop := map (vis1 O) l = map (vis1 O) l'.
+(* the masks of a body are uniform over the coordinate axis (every constructor stacks the confidence mask D times) *)
+Definition uniform (D : nat) (l : list (cell O)) : Prop :=
+  forall i d, d < D -> snd (rd O l (i * D + d)) = snd (rd O l (i * D)).
+End Visible.
